@@ -162,7 +162,21 @@ def oracle_loadback(ck, rng):
             tol = 0.05 * float(tmpl.max())
         scale = float(rng.choice([1.0, 0.5, 2.0])) if exact else float(rng.choice([1.0, 0.8, 2.0]))
         sim = TomogramSimulator(order=order, scale=scale)
-        sim.add_molecules(Molecules(pos[None] * scale, rot), tmpl)
+        # the template may be given as an array or as an image provider (resolved at the simulator's scale): same tomogram
+        via = ["array", "from_array", "provider_function"][i % 3]
+        if via == "array":
+            tin = tmpl
+        elif via == "from_array":
+            from acryo import pipe
+            tin = pipe.from_array(tmpl, original_scale=scale)
+        else:
+            from acryo.pipe import provider_function
+
+            @provider_function
+            def _given(scale_, arr):
+                return arr
+            tin = _given(tmpl)
+        sim.add_molecules(Molecules(pos[None] * scale, rot), tin)
         tomo = sim.simulate((26, 26, 26))
         ld = SubtomogramLoader(tomo, Molecules(pos[None] * scale, rot), order=order, scale=scale, output_shape=shape)
         back = ld.load(0)
@@ -178,8 +192,8 @@ def oracle_loadback(ck, rng):
         ck.oracle_count("load_back_template", 1, 1)
         if err > tol:
             ck.violation(what=f"loading at a simulated molecule does not return the template (excess {err:.4f}, exact={exact})",
-                         inp={"shape": list(shape), "pos_px": pos.tolist(), "scale": scale, "order": order, "exact": exact},
-                         key={"site": "loadback", "exact": exact, "even": any(s % 2 == 0 for s in shape)}, oracle="load_back_template", measured=err)
+                         inp={"shape": list(shape), "pos_px": pos.tolist(), "scale": scale, "order": order, "exact": exact, "template_given_as": via},
+                         key={"site": "loadback", "exact": exact, "even": any(s % 2 == 0 for s in shape), "template": via}, oracle="load_back_template", measured=err)
 
 
 def run(ck: common.Check):
